@@ -25,6 +25,7 @@ PRE_S = ["absent", "dir-0711", "dangling-symlink"]
 PRE_L = ["absent", "file", "symlink"]
 
 MT = 1_500_000_000
+OWNERS = {"f": (1234, 4321), "g": (1234, 4321), "x y": (0, 4321), "s": (1234, 0), "l": (1234, 4321)}
 
 
 def build_image(img, c):
@@ -60,7 +61,8 @@ def build_image(img, c):
         for n in dn + fn:
             p = os.path.join(dp, n)
             mode = stat.S_IMODE(os.lstat(p).st_mode)
-            os.lchown(p, 0, 0)
+            # recorded ownership differs from what a file created by the merging process gets
+            os.lchown(p, *OWNERS.get(n, (0, 0)))
             if not os.path.islink(p):
                 os.chmod(p, mode)  # chown clears set-id bits
                 os.utime(p, (MT + len(n), MT + len(n)))
@@ -91,6 +93,7 @@ def build_root(root, c):
             with open(f, "w") as fh:
                 fh.write("old content of f, longer than the new one")
             os.chmod(f, 0o600)
+            os.lchown(f, 7, 7)
             os.utime(f, (MT - 100, MT - 100))
         elif pf == "symlink-to-file":
             os.symlink("../keep", f)
